@@ -336,7 +336,7 @@ def flag_rule(F, R):
         if len(fns) != 1:
             raise CheckError("anchor lost: optimisation /%s/ (found %d)" % (rx, len(fns)))
         fn = fns[0]
-        ok = any(e[1] == "SemanticInformation" and e[2] == flag for _, e in lib.family_events(F, fn, "fld"))
+        ok = any(e[1] == "SemanticInformation" and e[2] == flag for _, e in lib.deep_events(F, fn, "fld", depth=2))
         R.inst("C01.m", "%s consults %s" % (fn.short(), flag), ok,
                "%s (%s) no longer reads SemanticInformation.%s: it can substitute / specialise on a definition that the "
                "program assigns later (from inside a procedure, a let or a branch), so a variable stops evaluating to the "
@@ -843,6 +843,10 @@ def quasiquote_shape_rule(F, R):
 
 
 def inline_count_rule(F, R):
+    R.rule("C01.f", "a call is replaced by the body of a definition only if it comes after that definition: at every place where "
+                    "the compiler overwrites a call's operator with a lambda expression taken from a definition (the C01.i sites), "
+                    "one side of a dominating branch on an ordering comparison that reads the call's List.syntax_object_id leads "
+                    "to the overwrite (ids grow in source order)")
     R.rule("C01.i", "a call is replaced by the body of the function it calls only if it passes the number of arguments the "
                     "function takes: every place in the compiler that overwrites a call's operator (List.args[0]) with a lambda "
                     "expression taken from a definition (an ExprKind::LambdaFunction aggregate stored into the argument vector "
@@ -890,6 +894,31 @@ def inline_count_rule(F, R):
                             reads_fn = True
                 if reads_call and reads_fn:
                     ok = True
+            ordered = False
+            for sb in dom[i]:
+                blk = fn.blocks[sb]
+                if sb == i:
+                    continue
+                if any(e[0] == "fld" and e[1] == "List" and e[2] == "syntax_object_id" for e in blk["e"]) and \
+                        any(e[0] == "binop" and e[1] in ("Gt", "Lt", "Ge", "Le") for e in blk["e"]):
+                    nxt = sb
+                    for _ in range(3):
+                        if fn.blocks[nxt]["k"] == "switch":
+                            break
+                        nxt = fn.succ(nxt)[0] if len(fn.succ(nxt)) == 1 else nxt
+                    sw_ = fn.blocks[nxt]
+                    if sw_["k"] == "switch":
+                        sides = [t for t in set(sw_["s"]) if t == i or i in fn.reachable_from([t], avoid={nxt})]
+                        ordered = ordered or len(sides) == 1
+            if name not in _reach(F) and (fn.d.get("parent") or "") not in _reach(F):
+                R.inst("C01.f", "%s (not reachable from the engine: test-only entry point)" % fn.short(), True, nontrivial=False)
+            else:
+              R.inst("C01.f", "%s / operator replaced by a lambda only in calls that come after the definition" % fn.short(), ordered,
+                     "%s overwrites the operator of a call with the lambda of the function it names (line %s) without having compared "
+                     "the position of the call (List.syntax_object_id) with the position of the definition: a call that is evaluated "
+                     "before the definition is replaced by its body — `(f 1) (define (f x) …)` runs where every other configuration "
+                     "reports a reference before definition, and in a REPL history the piece rebinds the global" % (
+                         fn.short(), fn.blocks[i].get("line") or fn.d.get("line")), fn.loc(fn.blocks[i].get("line")), sample=True)
             R.inst("C01.i", "%s / operator replaced by a lambda only after the counts were compared" % fn.short(), ok,
                    "%s overwrites the operator of a call with the lambda of the function it names (line %s) and no dominating "
                    "branch compares the call's argument count with the lambda's parameter count: a call with the wrong number "
@@ -1074,3 +1103,14 @@ def cond_arrow_rule(F, R):
            "the cond macro has no rule for a `=>` clause that is the only (last) clause ahead of `[(cond [e1 e2 ...]) (when e1 e2 "
            "...)]`: (cond [(assv k al) => cdr]) expands to (when … => cdr) and `=>` is a free identifier", where, sample=True)
     R.floor("C01.y", "cond rules with a => clause", n, 2)
+
+
+_REACH = {}
+
+
+def _reach(F):
+    k = id(F)
+    if k not in _REACH:
+        from . import shared
+        _REACH[k] = shared.script_reach(F)
+    return _REACH[k]
